@@ -10,7 +10,6 @@ from ..util.asjson import AsJSONMixin, asjson
 from ..util.debugging import ERROR_print
 from ..util.fromjson import JSONBase, fromjson
 from ..util.misc import hash2str, new_id
-from ..util.tty import tty_escape, tty_unescape
 from .compact import compact_value, decompact_value
 
 
@@ -100,14 +99,12 @@ def pack(packet: PacketLike) -> str:
         ensure_ascii=False,
     )
     value = class_escape(value)
-    value = tty_escape(value)
     return hashed(value)
 
 
 def unpack(hashed: str) -> PacketLike:
     try:
         value: Any = unhashed(hashed)
-        value = tty_unescape(value)
         value = class_unescape(value)
         value = json.loads(value)
         value = decompact_value(value)
